@@ -27,12 +27,12 @@ var run *ev.Run
 type httpRW = http.ResponseWriter
 type httpReq = *http.Request
 
-var faultKinds = []string{"status:500", "status:500:sticky", "status:503", "status:429", "status:404", "slowstatus:404:40", "status:401", "reset", "cut:3", "stallcancel", "cancel", "die"}
+var faultKinds = []string{"status:500", "status:500:sticky", "status:503", "status:429", "status:404", "slowstatus:404:40", "status:401", "reset", "cut:3", "stallcancel", "midstallcancel", "cancel", "die"}
 
 func main() {
 	run = ev.Start("C04", "fault_enumeration")
 	run.Rule("for each seeded graph / pairing / pre-state a clean run numbers the N requests of the copy; then for every (quick: <=24 evenly spread) position p and every fault kind " +
-		"{500, sticky 500, 503, 429, 404, slow 404 (answered after 40 ms), 401, connection reset, truncated body, stalled body + cancel, context cancel at arrival, process death (no request >= p is ever applied)} the copy is re-run with that fault at p; " +
+		"{500, sticky 500, 503, 429, 404, slow 404 (answered after 40 ms), 401, connection reset, truncated body, stalled request + cancel, body stalled half way + cancel, context cancel at arrival, process death (no request >= p is ever applied)} the copy is re-run with that fault at p; " +
 		"ordering is checked at every manifest PUT of every run; non-trivial = the fault fired and the copy wrote at least one object before it; distinct = (case class, fault kind, kind of the faulted request)")
 	run.Assume("faults act before the server applies request p, so 'failed before the final write' is exact; a reply lost after the final PUT was applied is outside the clause",
 		"process death is modelled for registry targets as 'no request numbered >= p is applied' (HTTP is the only channel to a registry's state); crash points inside layout writes belong to C07",
@@ -237,6 +237,13 @@ func mkFault(fk string, p int, cancel context.CancelFunc) *modelreg.Fault {
 		f.Call = func(*modelreg.Event) {
 			go func() { time.Sleep(5 * time.Millisecond); cancel() }()
 		}
+	case "midstallcancel":
+		// the response has begun (headers and half of the body) when the caller gives up: the failure surfaces
+		// inside the transfer of the body, not at the request
+		f.Action = "midstall"
+		f.Call = func(*modelreg.Event) {
+			go func() { time.Sleep(5 * time.Millisecond); cancel() }()
+		}
 	case "cancel":
 		f.Action = "call"
 		f.Call = func(*modelreg.Event) { cancel() }
@@ -256,6 +263,12 @@ func faultRun(c copyeng.Case, p int, fk string, kinds []string) {
 		plan = &modelreg.Plan{Faults: []*modelreg.Fault{mkFault(fk, p, cancel)}}
 		plan.Install(r.W.Hosts...)
 		labels.Store(r, fmt.Sprintf("%s@%d", fk, p))
+		if !r.Src.IsDir() && p%2 == 0 {
+			// every other position: a source with one store behind both endpoints (its blob endpoint also answers
+			// for manifest digests) - a failed manifest copy must not be "repaired" by moving the manifest as a blob
+			r.Src.Host.Cfg.ManifestsAsBlobs = true
+			run.Count("fault_runs_against_a_source_serving_manifests_as_blobs", 1)
+		}
 		if r.Tgt.IsDir() && !r.Src.IsDir() {
 			h := r.Src.Host
 			inner := h.Intercept
